@@ -863,6 +863,17 @@ class Exec:
                         if m > 0 and sx.const() is None and self._lengthlike(sx):
                             p.env[k] = self._divmod(p, I, sx, m + 1, False)
                             return
+                    # x & ~(2^k - 1): the length rounded down to a multiple of 2^k
+                    if m is not None and x.const() is None:
+                        inv = (~m) & ((1 << w) - 1)
+                        if m < 0:
+                            inv = (~m) & ((1 << w) - 1)
+                        if inv > 0 and (inv & (inv + 1)) == 0 and inv < 4096:
+                            sx = self.subst(p, x)
+                            if sx.const() is None and self._lengthlike(sx):
+                                q_ = self._divmod(p, I, sx, inv + 1, True)
+                                p.env[k] = Lf({s_: c * (inv + 1) for s_, c in q_.items()})
+                                return
             a, b = self.word(a, w, p), self.word(b, w, p)
             p.env[k] = {"xor": gf2.wxor, "and": gf2.wand, "or": gf2.wor}[op](a, b)
             return
